@@ -316,6 +316,50 @@ def features(body):
             elif k == "read":
                 feats.add("read")
     walk(body, 0, 0, False)
+
+    # retfinjump: a 'return' inside a loop, intercepted by a finally clause of the same loop iteration that ends the
+    # return with break/continue (code generation defect: the loop iterator is released by the return statement)
+    def has(b, kinds, stop_at_loops):
+        for n in b:
+            k = n[0]
+            if k in kinds:
+                return True
+            if k == "if" and (has(n[2], kinds, stop_at_loops) or has(n[3] or [], kinds, stop_at_loops)):
+                return True
+            if k in ("for", "while"):
+                if not stop_at_loops and (has(n[3] if k == "for" else n[2], kinds, stop_at_loops)):
+                    return True
+                if has((n[4] if k == "for" else n[3]) or [], kinds, stop_at_loops):
+                    return True
+            if k == "try" and (has(n[1], kinds, stop_at_loops) or has(n[2] or [], kinds, stop_at_loops)
+                               or any(has(hb, kinds, stop_at_loops) for _, hb in n[3])):
+                return True
+            if k == "fin" and (has(n[1], kinds, stop_at_loops) or has(n[2], kinds, stop_at_loops)):
+                return True
+            if k == "with" and has(n[3], kinds, stop_at_loops):
+                return True
+        return False
+
+    def scan(b, inloop):
+        for n in b:
+            k = n[0]
+            if k == "fin":
+                if inloop and has(n[2], ("break", "continue"), True) and has(n[1], ("return",), False):
+                    feats.add("retfinjump")
+                scan(n[1], inloop); scan(n[2], inloop)
+            elif k == "if":
+                scan(n[2], inloop); scan(n[3] or [], inloop)
+            elif k == "for":
+                scan(n[3], True); scan(n[4] or [], inloop)
+            elif k == "while":
+                scan(n[2], True); scan(n[3] or [], inloop)
+            elif k == "try":
+                scan(n[1], inloop); scan(n[2] or [], inloop)
+                for _, hb in n[3]:
+                    scan(hb, inloop)
+            elif k == "with":
+                scan(n[3], inloop)
+    scan(body, False)
     return feats
 
 
@@ -390,8 +434,10 @@ class CoreGen:
         r = self.rng
         v = "x" if r.random() < 0.8 else "y"
         o = r.choice(allow)
-        if self.protect and o in ("del", "asg", "casg", "cdel"):
-            v = "y"          # contrast mode: only the statements next to the jump change x
+        if self.protect:
+            # contrast mode: only the statements next to the jump change x, nothing else raises by itself
+            v = "y"
+            o = {"del": "asg", "cdel": "casg", "read": "other"}.get(o, o)
         if o == "none":
             return []
         if o == "del":
@@ -439,16 +485,19 @@ class CoreGen:
                      + ([] if is_term(inner) else self.op(("none", "asg", "del"))))]
         raise ValueError(kind)
 
-    def function(self, jump, wraps, loopkind, fin_jump_prob=0.0):
+    def function(self, jump, wraps, loopkind, fin_jump_prob=0.0, contrast_prob=0.6, shape=None):
         r = self.rng
         self.inloop = True
         guarded = (jump != "none") and (r.random() < 0.85)
-        contrast = (jump != "none") and r.random() < 0.6
+        contrast = (jump != "none") and r.random() < contrast_prob
         self.protect = contrast
         if contrast:
             # the definedness of x on the jump path differs from the fall-through path
             guarded = True
-            if r.random() < 0.7:
+            shape = shape or r.choice("AAABBC")
+            if shape == "A":      # x unbound before the try, re-bound after the whole try statement
+                inner = self.jump_stmt(jump, True)
+            elif shape == "B":
                 inner = [("del", "x")] + self.jump_stmt(jump, True) + [("asg", "x", self.const())]
             else:
                 inner = [("asg", "x", self.const())] + self.jump_stmt(jump, True) + [("del", "x")]
@@ -467,6 +516,9 @@ class CoreGen:
             head = [("read", "x")] if r.random() < 0.8 else []
             pre = self.op(("none", "other", "call"))
             post = self.op(("none", "read", "other"))
+            if shape == "A":
+                pre = pre + [("del", "x")]
+                post = [("asg", "x", self.const())] + post
         else:
             head = self.op(("read", "read", "none", "casg"))
             pre = self.op(("del", "del", "asg", "none", "cdel"))
@@ -543,10 +595,10 @@ def uses(body, v):
     return re.search(r"\b%s\b" % v, src) is not None
 
 
-def gen_core(rng, jump, wraps, loopkind, fin_jump_prob=0.0):
+def gen_core(rng, jump, wraps, loopkind, fin_jump_prob=0.0, contrast_prob=0.6, shape=None):
     g = CoreGen(rng)
     g.never = None
-    body = g.function(jump, wraps, loopkind, fin_jump_prob)
+    body = g.function(jump, wraps, loopkind, fin_jump_prob, contrast_prob, shape)
     doms = slots(body)
     if g.never is not None:
         doms[g.never] = 1
